@@ -17,8 +17,8 @@ const repoMod = "github.com/Fantom-foundation/lachesis-base/"
 
 func init() {
 	for k, v := range map[string]externalFn{
-		repoMod + "kvdb/table.MigrateTables": extMigrateTables,
-		repoMod + "kvdb/table.MigrateCaches": extMigrateCaches,
+		repoMod + "kvdb/table.MigrateTables":                extMigrateTables,
+		repoMod + "kvdb/table.MigrateCaches":                extMigrateCaches,
 		"github.com/ethereum/go-ethereum/rlp.EncodeToBytes": extRlpEncodeToBytes,
 		"github.com/ethereum/go-ethereum/rlp.DecodeBytes":   extRlpDecodeBytes,
 		"sort.Slice":       extSortSlice,
